@@ -370,6 +370,17 @@ func runScenarios(c *vlib.Ctx, cfgs []config) {
 				}
 			}
 		}
+		if plain.Backend == "hashmap" || plain.Backend == "bbolt" {
+			for _, which := range []string{"same-key", "other-key"} {
+				v, outcome, t := runPutDuringFlush(plain, which, false)
+				trans += t
+				states++
+				if outcome != "" {
+					c.Outcome(outcome)
+				}
+				reportScenario(c, v, scenarioWitness{"put-during-flush", plain, 0, which})
+			}
+		}
 		if plain.Backend != "hashmap" && !plain.Shadow {
 			v, outcome, t := runStorageError(plain, false)
 			for attempt := 0; attempt < 3 && starved(v); attempt++ {
@@ -428,6 +439,16 @@ func replayScenario(c *vlib.Ctx, w scenarioWitness) {
 	case "storage-error":
 		fmt.Printf("replay: scenario storage-error, configuration %v\n", w.Config)
 		v, _, t := runStorageError(w.Config, true)
+		c.Add(1, t, 1)
+		if v != nil {
+			fmt.Printf("replay: still violates: %s | %s | %s\n", v.clause, v.site, v.disc)
+		} else {
+			fmt.Println("replay: no violation")
+		}
+		reportScenario(c, v, w)
+	case "put-during-flush":
+		fmt.Printf("replay: scenario put-during-flush, configuration %v, %s\n", w.Config, w.Variant)
+		v, _, t := runPutDuringFlush(w.Config, w.Variant, true)
 		c.Add(1, t, 1)
 		if v != nil {
 			fmt.Printf("replay: still violates: %s | %s | %s\n", v.clause, v.site, v.disc)
